@@ -64,6 +64,24 @@ template<class S> using MS1 = amgcl::make_solver<AMG1,S>; template<class S> usin
 template<template<class> class MSx, class S, class Ex> static void one(const std::string &pn, const std::string &sn, const Pattern &p, hx::Rng &rng, int k, Ex extra, bool stateful=false) {
     reuse_case<MSx<S>>(pn+"+"+sn+"/k"+std::to_string(k), p, rng, [&](typename MSx<S>::params &prm) { prm.solver.maxiter=k; prm.solver.tol=scalar(1e-8); prm.solver.abstol=scalar(0); extra(prm.solver); set_pre(prm.precond); }, stateful); }
 
+// a call that is INTERRUPTED by an exception (thrown by the preconditioner at its k-th application, as a failing backend operation would)
+// leaves no trace: the next call on the same solver object performs exactly the operations of the same call on a fresh object
+struct ThrowingPrec { int n; std::shared_ptr<hx::ACrs<scalar>> A; std::vector<scalar> d; mutable int left; ThrowingPrec(int n, std::shared_ptr<hx::ACrs<scalar>> A, int throw_at) : n(n), A(A), left(throw_at) { for (int i=0;i<n;++i) for (ptrdiff_t k=A->ptr[i];k<A->ptr[i+1];++k) if (A->col[k]==i) d.push_back(scalar(1)/A->val[k]); }
+    template<class V1,class V2> void apply(const V1 &rhs, V2 &&x) const { if (left>0 && --left==0) throw std::runtime_error("injected failure"); for (int i=0;i<n;++i) x[i]=d[i]*rhs[i]; }
+    const hx::ACrs<scalar> &system_matrix() const { return *A; } };
+template<class S, class SetP> static void interrupted_case(const std::string &nm, const Pattern &p, hx::Rng &rng, int k, int throw_at, SetP setp) {
+    hx::CaseOptions coo; coo.max_paths=hx::thorough()?8:3; coo.max_depth=160; coo.budget_s=12; coo.max_undecided=1;
+    hx::run_case("interrupted/"+nm+"/k"+std::to_string(k)+"/throw"+std::to_string(throw_at)+"/"+p.name, [&]() {
+        hx::Rng r2(rng.s); SCrs A=hx::mmatrix(p,r2); int n=p.n; auto Am=hx::to_amgcl(A); typename S::params prm; prm.maxiter=k; prm.tol=scalar(1e-8); prm.abstol=scalar(0); setp(prm);
+        std::vector<scalar> f1=hx::sym_vector("early_f",n), x1=hx::sym_vector("early_x",n,0.25), f2=hx::sym_vector("f",n,0.75), x2=hx::sym_vector("x",n,-0.25);
+        S used(n,prm); bool threw=false; { ThrowingPrec P(n,Am,throw_at); NV F=hx::to_numa(f1), X=hx::to_numa(x1); hx::cuts(true); try { used(*Am,P,F,X); } catch (const std::runtime_error&) { threw=true; } hx::cuts(false); }
+        hx::count(threw ? "earlier call interrupted by the injected exception" : "earlier call finished before the injection point");
+        auto run=[&](const S &s) { Out o; ThrowingPrec P(n,Am,0); NV F=hx::to_numa(f2), X=hx::to_numa(x2); hx::cuts(true); try { std::tie(o.it,o.res)=s(*Am,P,F,X); } catch (const std::runtime_error&) { o.threw=true; } hx::cuts(false); o.x=hx::to_vec(X); return o; };
+        Out a=run(used); S fresh(n,prm); Out b=run(fresh);
+        hx::require("solve after an interrupted (throwing) call = same solve on a fresh object (identical operations, bitwise equal)", same_out(a,b)); hx::require("solve after an interrupted call does not depend on the interrupted call's data", clean(a,"early_"));
+    }, coo);
+}
+
 static void skyline_case(const Pattern &p) { hx::run_case("reuse/skyline_lu/"+p.name, [&]() { SCrs A=hx::symbolic_matrix(p,"a"); for (auto &v : A.val) hx::assume(hx::ne(v,scalar(0))); int n=p.n; try { sv::skyline_lu<scalar> S(std::tie(n,A.ptr,A.col,A.val)); sv::skyline_lu<scalar> S2(std::tie(n,A.ptr,A.col,A.val));
         std::vector<scalar> f1=hx::sym_vector("early_f",n), f2=hx::sym_vector("f",n), x(n), y(n); S(f1,x); S(f2,x); S2(f2,y); bool same=true, cl=true; for (int i=0;i<n;++i) { same=same&&hx::same_handle(x[i],y[i]); cl=cl&&hx::independent_of(x[i],"early_"); }
         hx::require("skyline_lu: second solve on a used object = fresh solve (work vector carries nothing)", same&&cl); } catch (const std::runtime_error&) { hx::count("zero pivot paths"); } }); }
@@ -87,6 +105,12 @@ int main(int argc, char **argv) {
         if (light) one<MS1,sv::idrs<BE>>("amg-sa-spai0","idrs",p,rng,k,[](auto &s){ s.s=2; }); if (light) one<MS4,sv::idrs<BE>>("dummy","idrs-s1-smooth",p,rng,k,[](auto &s){ s.s=1; s.smoothing=true; }); if (light) one<MS3,sv::idrs<BE>>("ilu0","idrs-repl",p,rng,k,[](auto &s){ s.s=2; s.replacement=true; });
         one<MS1,sv::richardson<BE>>("amg-sa-spai0","richardson",p,rng,k,none); one<MS3,sv::richardson<BE>>("ilu0","richardson",p,rng,k,none);
     }
+    { Pattern p=hx::grid_pattern(3,2); namespace side=amgcl::preconditioner::side;
+      for (int at=2; at<=(T?6:4); ++at) { int k=3;
+        interrupted_case<sv::cg<BE>>("cg",p,rng,k,at,none); interrupted_case<sv::bicgstab<BE>>("bicgstab",p,rng,k,at,none); interrupted_case<sv::bicgstab<BE>>("bicgstab-left",p,rng,k,at,[](auto &s){ s.pside=side::left; });
+        if (at<=3 || T) { interrupted_case<sv::bicgstabl<BE>>("bicgstabl-L2",p,rng,2,at,[](auto &s){ s.L=2; }); interrupted_case<sv::bicgstabl<BE>>("bicgstabl-L1-left",p,rng,2,at,[](auto &s){ s.L=1; s.pside=side::left; }); }   // BiCGStab(L) with cut coefficients is the memory hog: 2 iterations
+        interrupted_case<sv::gmres<BE>>("gmres",p,rng,k,at,[](auto &s){ s.M=2; }); interrupted_case<sv::fgmres<BE>>("fgmres",p,rng,k,at,[](auto &s){ s.M=2; }); interrupted_case<sv::lgmres<BE>>("lgmres",p,rng,k,at,[](auto &s){ s.M=2; s.K=1; });
+        interrupted_case<sv::idrs<BE>>("idrs",p,rng,k,at,[](auto &s){ s.s=2; }); interrupted_case<sv::richardson<BE>>("richardson",p,rng,k,at,none); } }
     for (auto &p : std::vector<Pattern>{hx::band_pattern(3,1),hx::dense_pattern(3,3),hx::arrow_pattern(4)}) skyline_case(p);
     return hx::finish();
 }
